@@ -584,4 +584,81 @@ theorem deliver_reaches (h : Token → Nat) (cfg : Cfg) (s : State) (m : Msg) (c
 theorem remember_holds (cfg : Cfg) (s : State) (m0 : Msg) (c : Nat) (m : Msg) : Holds (remember cfg s m0) c m ↔ Holds s c m := by
   unfold remember; split <;> exact Iff.rfl
 
+/-! ### The message-ID layer in front of the token table: what was processed once is recognised for ever
+
+(`cache` never shrinks in this model: every history is shorter than EXCHANGE_LIFETIME; expiry of the response cache is C05's.) -/
+
+theorem handover_cache (s : State) (c : Nat) (m : Msg) : (handover s c m).cache = s.cache := by
+  unfold handover; repeat (first | rfl | split)
+
+theorem wakeMid_cache (s : State) (mid : Nat) : (wakeMid s mid).cache = s.cache := by
+  unfold wakeMid; repeat (first | rfl | split | dsimp only)
+
+theorem wakeCaller_cache (s : State) (c : Nat) : (wakeCaller s c).cache = s.cache := by
+  unfold wakeCaller; repeat (first | rfl | split | dsimp only)
+
+theorem leave_cache (h : Token → Nat) (s : State) (c : Nat) (r : Res) : (leave h s c r).cache = s.cache := by
+  unfold leave; repeat (first | rfl | split)
+
+theorem finish_cache (h : Token → Nat) (s : State) (c : Nat) : (finish h s c).cache = s.cache := by
+  unfold finish; repeat (first | rfl | split)
+
+theorem deliver_cache (h : Token → Nat) (cfg : Cfg) (s : State) (m : Msg) : (deliver h cfg s m).cache = s.cache := by
+  unfold deliver; split
+  · dsimp only; split
+    · rw [wakeCaller_cache, handover_cache]
+    · rw [handover_cache]
+  · rfl
+
+theorem receive_cache (cfg : Cfg) (s : State) (kind : Kind) (tok : Token) (mid : Nat) (tag : String) :
+    (receive cfg s kind tok mid tag).cache = s.cache := by
+  unfold receive enqueue bump; split <;> split <;> first | rfl | (rw [wakeMid_cache]) | (dsimp only; rw [wakeMid_cache])
+
+theorem remember_cache_mono (cfg : Cfg) (s : State) (m : Msg) (x : Nat) (hx : x ∈ s.cache) : x ∈ (remember cfg s m).cache := by
+  unfold remember; split
+  · exact List.mem_cons_of_mem _ hx
+  · exact hx
+
+/-- no event removes a message ID from the cache -/
+theorem cache_mono_step (h : Token → Nat) (cfg : Cfg) (s : State) (ev : Event) (x : Nat) (hx : x ∈ s.cache) :
+    x ∈ (step h cfg s ev).cache := by
+  cases ev with
+  | doStart c tok con mid =>
+    rw [step]; split
+    · exact hx
+    · repeat (first | exact hx | split)
+  | arrive kind tok mid tag =>
+    rw [step]; split
+    · exact hx
+    · rw [receive_cache]; exact hx
+  | process =>
+    rw [step]; split
+    · exact hx
+    · split
+      · exact hx
+      · apply remember_cache_mono; rw [deliver_cache]; exact hx
+  | ret c => rw [step, finish_cache]; exact hx
+  | cancel c => rw [step, leave_cache]; exact hx
+  | close => rw [step]; exact hx
+  | retClosed c =>
+    rw [step]; split
+    · rw [leave_cache]; exact hx
+    · exact hx
+
+theorem cache_mono_fold (h : Token → Nat) (cfg : Cfg) (evs : List Event) (s : State) (x : Nat) (hx : x ∈ s.cache) :
+    x ∈ (evs.foldl (step h cfg) s).cache := by
+  induction evs generalizing s with
+  | nil => exact hx
+  | cons e es ih => exact ih _ (cache_mono_step h cfg s e x hx)
+
+/-- processing a confirmable datagram leaves its message ID in the cache (it was there, or it is put there) -/
+theorem process_con_cached (h : Token → Nat) (cfg : Cfg) (s : State) (m : Msg) (q : List Msg) (hudp : cfg.udp = true)
+    (hq : s.queue = m :: q) (hk : m.kind = .con) : m.mid ∈ (step h cfg s .process).cache := by
+  rw [step, hq]; dsimp only
+  split
+  · rename_i hd
+    simp [dedupHit] at hd
+    exact hd.2
+  · unfold remember; simp [hudp, hk]
+
 end CoapVerif.Lemmas.TokenReach
